@@ -173,6 +173,8 @@ def check(chk):
     from . import c02
     c02.r26(chk, m, rule_id='R4.7')       # a stored \end-part that grows by one } per use closes one more group each time
     r48(chk, m)
+    from . import c05
+    c05.r57(chk, m, rule_id='R4.9')       # category codes changed for the time of an argument are back in force after it
     chk.decline('that every concrete document leaves depth 1 (depends on the document being balanced)')
 
 
